@@ -52,7 +52,7 @@ Definition obsV (i : info) (d : node) (v : Z) : Prop := exists t, alookup (i_obs
 Definition edgeok (s : state) (n d : node) : Prop :=
   exists i j v t, get_info s n = Some i /\ get_info s d = Some j /\
     alookup (i_obs i) d = Some (v, t) /\ v = i_value j /\
-    (nkind d = KNormal -> forall x, In x (i_tfc j) <-> In x t).
+    (nkind d <> KFirewall -> forall x, In x (i_tfc j) <-> In x t).
 
 (** paths through recorded edges whose nodes after the first are not firewalls *)
 Inductive nfpath (s : state) : node -> node -> Prop :=
@@ -173,7 +173,8 @@ Record FInv (inp : inputs) (s : state) : Prop := {
   fi_V : forall n i, get_info s n = Some i -> i_verified i = s_ts s -> FSpecI p inp n (i_value i);
   fi_PV : forall x, In x (s_visited s) ->
             sverified s x \/
-            (forall c, In c (callers_of s x) -> sdirty s c x /\ (nonfw c -> In c (s_visited s)));
+            (nkind x <> KInput /\
+             forall c, In c (callers_of s x) -> sdirty s c x /\ (nonfw c -> In c (s_visited s)));
 }.
 
 Hypothesis Hrk : forall n e d, alookup p n = Some e -> In d (expr_reads e) -> (rk d < rk n)%nat.
@@ -224,9 +225,9 @@ Proof using Type.
   - intros n F. rewrite !Hsv, HR. apply fi_T0.
   - intros n i. rewrite Hg, Ht. apply fi_V0.
   - intros x Hx. destruct Hv as [Hv|Hv]; [|rewrite Hv in Hx; destruct Hx].
-    rewrite Hv in Hx. destruct (fi_PV0 x Hx) as [K|K].
+    rewrite Hv in Hx. destruct (fi_PV0 x Hx) as [K|[K0 K]].
     + left. apply Hsv. exact K.
-    + right. intros c Hcx. rewrite Hc in Hcx. destruct (K c Hcx) as [K1 K2]. split; [apply Hsd; exact K1|].
+    + right. split; [exact K0|]. intros c Hcx. rewrite Hc in Hcx. destruct (K c Hcx) as [K1 K2]. split; [apply Hsd; exact K1|].
       rewrite Hv. exact K2.
 Qed.
 
@@ -289,7 +290,7 @@ Proof.
       pose proof (input_no_fwd _ _ _ HI K) as E0. inversion Hp; subst; [rewrite E0 in HF; destruct HF|].
       match goal with H : In _ (old_fwd s d) |- _ => rewrite E0 in H; destruct H end. }
     assert (In F (i_tfc j)) by (eapply IH; eauto; eapply Good_step; eauto).
-    apply (proj2 (fi_tfc _ _ HI n i d v t Hi C) Kd). apply (E Kd). assumption.
+    apply (proj2 (fi_tfc _ _ HI n i d v t Hi C) Kd). apply (E (nonfw_not_fw _ Hnf)). assumption.
 Qed.
 Lemma Good_reach_tfc : forall inp s d i F, FInv inp s -> Good s d -> reach s d F ->
   get_info s d = Some i -> In F (i_tfc i).
